@@ -14,7 +14,7 @@ from simkit.engine import Refuse, Violation
 from simkit.worldbase import BUFS, CHUNKS, WorldBase
 from worlds.c05 import expected_read, parse_frames
 
-PREFIXES = ("dump", "voro_a", "voro_b")
+PREFIXES = ("dump", "voro_a", "voro_b", "run.v2", "sub/vor")
 
 
 class VConfig:
@@ -24,6 +24,8 @@ class VConfig:
         ndim, N, T = recipe["ndim"], recipe["N"], recipe["T"]
         self.ndim, self.N, self.T = ndim, N, T
         self.L = np.round(rng.uniform(3.0, 9.0, size=ndim), 3)
+        if recipe.get("shape") == "slab":
+            self.L[0] = np.round(self.L[0] * 4.0, 3)     # very different side lengths
         ok = recipe["origin"]
         if ok == "centred":
             self.lo = -self.L / 2
@@ -37,6 +39,8 @@ class VConfig:
             # sum(lo)+sum(hi) == 0 by construction in 3D: (-3+1) + (1+3) + (-2+4) = 4 -> adjust
             lo[0] -= (lo.sum() + hi.sum()) / 2.0
             self.lo = lo
+        elif ok == "far":
+            self.lo = np.round(rng.uniform(-1.0, 1.0, size=ndim) * 10.0 ** rng.integers(3, 6), 3)
         else:
             self.lo = rng.uniform(-10, 10, size=ndim)
         self.frames = []
@@ -175,7 +179,7 @@ class World(WorldBase):
             "chunk": rng.choice(CHUNKS),
             "buf": rng.choice(BUFS),
             "prefixes": rng.sample(PREFIXES, rng.randint(1, 3)),
-            "maxN": rng.choice([6, 12, 24, 48]),
+            "maxN": rng.choice([6, 12, 24, 48, 48, 130]),
             "maxT": rng.randint(1, 3),
             "w_volmat": rng.choice([0, 1, 2]),
             "faults": [],
@@ -198,6 +202,7 @@ class World(WorldBase):
         self.handles = {}
         self.next_h = 0
         self.next_c = 0
+        os.makedirs("sub", exist_ok=True)      # one of the output prefixes names a directory
 
     # ---------------------------------------------------------------- generation ----
     def gen(self, rng):
@@ -264,7 +269,8 @@ class World(WorldBase):
             ndim = rng.choice([2, 3])
             N = rng.randint(4, 14 if small else sw["maxN"])
             rec = {"ndim": ndim, "N": N, "T": rng.randint(1, sw["maxT"]),
-                   "origin": rng.choice(["any", "any", "centred", "zero", "int-sum-zero"]),
+                   "origin": rng.choice(["any", "any", "centred", "zero", "int-sum-zero", "far"]),
+                   "shape": rng.choice(["cube", "cube", "cube", "slab"]),
                    "layout": rng.choice(["random", "lattice"]), "boxes": rng.choice(["const", "const", "vary"]),
                    "subseed": rng.randrange(1 << 40)}
             if VConfig(rec).general_position():
